@@ -453,6 +453,13 @@ def run(chk, prog, tier):
     dispatch_rule(chk, prog)
     band(chk, prog)
     no_sign_zero(chk, prog)
+    # DCM.to_quaternion converts `self.A`, not `self`: the shadow attribute has to be the memory the instance is made over, or an in-place update of the matrix
+    # (R[:] = R @ dR) leaves every method converting the matrix of construction time (C11's SHADOW-INIT, shared; round 8)
+    from props.c11 import shadow_init
+    _f = prog.func("ahrs/common/dcm.py::DCM.__new__")
+    chk.touch(_f)
+    shadow_init(chk, _f)
+    chk.require_count("SHADOW-INIT", 1)
     chk.require_count("INVERT", 17)
     chk.require_count("PIVOT", 4)
     canaries(chk, prog)
